@@ -361,10 +361,14 @@ def run_float(case):
     async def main():
         if case['start'] and not case['run_start']:
             await (time + case['start'])
+        ticker = make(p)
+        if case.get('warmup'):
+            # the ticker object is created first and iterated later: the grid starts when the iteration starts
+            await (time + case['warmup'])
         out['t0'] = time.now
         k = 0
         try:
-            async for now in make(p):
+            async for now in ticker:
                 tick = time.now
                 out['ticks'].append((tick, now))
                 if k == n:
@@ -379,6 +383,8 @@ def run_float(case):
                     await (time == tick + p)
                 elif b == 'over':
                     await (time + p * 1.5)
+                elif b == 'tiny_over':
+                    await (time + p * (1 + 2.0 ** -31))
                 out['ends'].append(time.now)
             out['outcome'] = 'completed'
         except IntervalExceeded:
@@ -399,8 +405,8 @@ def monitor_float(case, out):
         return ['an exception left usim.run(): ' + out['error']]
     p, kind = case['p'], case['kind']
     ticks, ends, t0 = out['ticks'], out['ends'], out['t0']
-    tol = 1e-9
     for k, (tick, v) in enumerate(ticks):
+        tol = 1e-9 * p + 1e-12 * abs(tick)       # rounding only: relative to the period and to the magnitude of the clock
         if type(v) not in (int, float) or v != tick:
             bad.append('tick %d yielded %r but the time is %r' % (k, v, tick))
         if kind == 'interval':
@@ -447,6 +453,10 @@ FLOAT_CORNERS = [
     dict(kind='interval', p=1.1, start=0.2, run_start=False, bodies=['zero', 'half', 'full_moment'], n=40),
     dict(kind='delay', p=0.1, start=0.3, run_start=False, bodies=['full_delay', 'half'], n=20),
     dict(kind='interval', p=0.1, start=0.3, run_start=False, bodies=['full_delay', 'over'], n=5),
+    dict(kind='interval', p=1, start=0, run_start=False, bodies=['full_delay', 'tiny_over'], n=6),
+    dict(kind='interval', p=2.5e-9, start=0, run_start=False, bodies=['half', 'zero'], n=12),
+    dict(kind='interval', p=10, start=0, run_start=False, bodies=['half'], n=4, warmup=4),
+    dict(kind='interval', p=2, start=1, run_start=True, bodies=['zero'], n=4, warmup=5),
 ]
 
 
@@ -456,6 +466,13 @@ def gen_float(rng, i):
     bodies = [rng.choice(FLOAT_BODIES) for _ in range(rng.randint(1, 4))]
     if rng.random() < 0.05:
         bodies.append('over')
+    if rng.random() < 0.1:
+        bodies.append('tiny_over')
+    if rng.random() < 0.25:
+        # tiny or odd periods, optionally a ticker created before a warm-up
+        return dict(kind='interval' if rng.random() < 0.85 else 'delay', p=rng.choice([2.5e-9, 2.0 ** -30, 1, 3e-7]),
+                    start=rng.choice([0, 0, 2.0 ** -20]), run_start=rng.random() < 0.5, bodies=bodies, n=rng.randint(5, 30),
+                    warmup=rng.choice([0, 0, 0.5, 4, 2.0 ** -31]))
     return dict(kind='interval' if rng.random() < 0.85 else 'delay', p=rng.choice(FLOAT_PERIODS),
                 start=rng.choice(FLOAT_STARTS), run_start=rng.random() < 0.5, bodies=bodies,
                 n=rng.randint(5, 60))
